@@ -1,6 +1,6 @@
 SPECIFICATION Spec
 CONSTANTS
-  Prog <- P_3S3R
+  Prog <- P_3S2RC
   Procs = {1,2,3,4,5,6}
   Fixed = FALSE
   EnableFirst = TRUE
